@@ -231,6 +231,156 @@ def spawnEventsNoReturn (m : Mgr) (cfg svc : Nat) : Option Reply → List Ev
   | none => [.alloc]
   | some _ => [.alloc, .create m.nextId cfg svc]
 
+/-! ### the manager as a system: `SpawnScene` (mgr_createscene.go), the public-scene keeper's
+`trySpawnScene` (publicscenes.go) and the allocation requests in flight
+
+`SpawnScene(cfg)`: `AllocScene` (placement + fresh scene id), then `app.Request("scene.remote.allocscene")`
+to the chosen service with a reply callback.  The request table of the manager's `NodeService`
+(`ns.Handlers`) is `pending` here: an entry is added when the request was sent, removed when the
+answer arrives (so a second answer for the same request finds nothing), and only a successful answer
+registers the scene (`OnSceneCreateSucc(info)` with the object `AllocScene` returned, i.e. with the
+scene id, configuration and service fixed at allocation time).  A request to a service that is not
+in the cluster view fails at once: the id is used up, nothing is sent. -/
+
+/-- one `scene.remote.allocscene` request awaiting its answer -/
+structure Pend where
+  sid : Nat
+  cfg : Nat
+  svc : Nat
+  deriving DecidableEq, Repr, Inhabited
+
+structure Sys where
+  m : Mgr
+  routable : List Nat      -- scene services present in the cluster view
+  pending : List Pend      -- requests sent and not yet answered, in send order
+  waiting : List Nat       -- ids of those requests that the AllocScene handler made for a client still waiting for its answer
+
+def Sys.init : Sys := { m := Mgr.init, routable := [], pending := [], waiting := [] }
+
+/-- what `SpawnScene` did -/
+inductive Spawned where
+  | noService                   -- `AllocScene` returned nil: `return false`
+  | noRoute (sid svc : Nat)     -- allocated, the request failed at once
+  | sent (sid svc : Nat)        -- allocated, request sent
+  deriving DecidableEq, Repr
+
+/-- `SpawnScene(cfg)`, the service map being visited in `order` -/
+def Sys.spawn (s : Sys) (cfg : Nat) (order : List (Nat × Stat)) : Sys × Spawned :=
+  match s.m.alloc satKey order with
+  | (_, none) => (s, .noService)
+  | (m', some (k, sid)) =>
+    if s.routable.contains k then
+      ({ s with m := m', pending := s.pending ++ [⟨sid, cfg, k⟩] }, .sent sid k)
+    else ({ s with m := m' }, .noRoute sid k)
+
+/-- `PublicScenes.trySpawnScene` for a public scene `(cfg, reqNum)`: nothing while the configuration has
+at least `reqNum` *confirmed* lines (`GetLineNum`), else one `SpawnScene`.  Second component:
+`scene.Spawned` afterwards. -/
+def Sys.keeper (s : Sys) (cfg reqNum : Nat) (order : List (Nat × Stat)) : Sys × Nat :=
+  let have_ := (s.m.world.lines cfg).length
+  if have_ ≥ reqNum then (s, have_)
+  else
+    match s.spawn cfg order with
+    | (_, .noService) => (s, have_)
+    | (s', _) => (s', have_ + 1)
+
+/-- what the remote `AllocScene` handler (handler/remote.go) did -/
+inductive HAlloc where
+  | silent                      -- no service working: `info == nil` is dereferenced inside the waterfall task, the
+                                -- scheduler recovers the panic, the client is never answered
+  | refused (sid svc : Nat)     -- allocated, the request failed at once, the client got an error
+  | sent (sid svc : Nat)        -- allocated, request sent, the client waits
+  deriving DecidableEq, Repr
+
+/-- the remote `AllocScene` handler: the same `AllocScene` + `app.Request` + callback as `SpawnScene`
+(no nil check), and the client is answered when the request is -/
+def Sys.halloc (s : Sys) (cfg : Nat) (order : List (Nat × Stat)) : Sys × HAlloc :=
+  match s.spawn cfg order with
+  | (_, .noService) => (s, .silent)
+  | (s', .noRoute sid k) => (s', .refused sid k)
+  | (s', .sent sid k) => ({ s' with waiting := s'.waiting ++ [sid] }, .sent sid k)
+
+/-- the answer to the allocation request for scene `sid` arrives (`ok`: the scene service created it) -/
+def Sys.reply (s : Sys) (sid : Nat) (ok : Bool) : Sys :=
+  match s.pending.find? (fun p => p.sid == sid) with
+  | none => s
+  | some p =>
+    let s1 := { s with pending := s.pending.filter (fun q => q.sid != sid), waiting := s.waiting.filter (fun w => w != sid) }
+    if ok then { s1 with m := s1.m.step (.create p.sid p.cfg p.svc) } else s1
+
+/-- what the waiting client of the handler is told when that answer arrives (`none`: nobody is waiting) -/
+def Sys.replyAck (s : Sys) (sid : Nat) (ok : Bool) : Option Bool :=
+  if (s.pending.any (fun p => p.sid == sid)) && s.waiting.contains sid then some ok else none
+
+/-- events of the system: no raw create-success and no bare id allocation any more — scenes come into
+being only through `SpawnScene`/the keeper/the `AllocScene` handler and a successful answer -/
+inductive SEv where
+  | route (ks : List Nat)                                   -- the cluster view changes
+  | spawn (cfg : Nat) (order : List (Nat × Stat))           -- SpawnScene
+  | keeper (cfg reqNum : Nat) (order : List (Nat × Stat))   -- PublicScenes.trySpawnScene
+  | halloc (cfg : Nat) (order : List (Nat × Stat))          -- the remote AllocScene handler
+  | reply (sid : Nat) (ok : Bool)
+  | endScene (sid : Nat)
+  | refresh (svc n : Nat)
+  | adv (ms : Nat)
+  | tick
+  | lost (svc : Nat)
+  | wlost (svc : Nat)
+  deriving Repr
+
+def Sys.lift (s : Sys) (e : Ev) : Sys := { s with m := s.m.step e }
+
+def Sys.step (s : Sys) : SEv → Sys
+  | .route ks => { s with routable := ks }
+  | .spawn cfg order => (s.spawn cfg order).1
+  | .keeper cfg n order => (s.keeper cfg n order).1
+  | .halloc cfg order => (s.halloc cfg order).1
+  | .reply sid ok => s.reply sid ok
+  | .endScene sid => s.lift (.endScene sid)
+  | .refresh svc n => s.lift (.refresh svc n)
+  | .adv ms => s.lift (.adv ms)
+  | .tick => s.lift .tick
+  | .lost svc => s.lift (.lost svc)
+  | .wlost svc => s.lift (.wlost svc)
+
+def Sys.run (s : Sys) (evs : List SEv) : Sys := evs.foldl Sys.step s
+
+/-- the only side condition on a history: the order in which `FindIdleService` visits the service map
+is some permutation of the map's entries -/
+def SEv.Ok (s : Sys) : SEv → Prop
+  | .spawn _ order => order.Perm s.m.services
+  | .keeper _ _ order => order.Perm s.m.services
+  | .halloc _ order => order.Perm s.m.services
+  | _ => True
+
+/-- `e` is a call that places a scene of configuration `cfg`, visiting the service map in `order` -/
+def SEv.places (e : SEv) (cfg : Nat) (order : List (Nat × Stat)) : Prop :=
+  e = .spawn cfg order ∨ (∃ n, e = .keeper cfg n order) ∨ e = .halloc cfg order
+
+def OkRun : Sys → List SEv → Prop
+  | _, [] => True
+  | s, e :: es => e.Ok s ∧ OkRun (s.step e) es
+
+/-- the `Mgr`-level events a system event amounts to -/
+def spawnEvs (order : List (Nat × Stat)) : List Ev :=
+  match findIdle satKey order with | none => [] | some _ => [.alloc]
+
+def SEv.evs (s : Sys) : SEv → List Ev
+  | .route _ => []
+  | .spawn _ order => spawnEvs order
+  | .keeper cfg n order => if (s.m.world.lines cfg).length ≥ n then [] else spawnEvs order
+  | .halloc _ order => spawnEvs order
+  | .reply sid ok =>
+    match s.pending.find? (fun p => p.sid == sid) with
+    | none => []
+    | some p => if ok then [.create p.sid p.cfg p.svc] else []
+  | .endScene sid => [.endScene sid]
+  | .refresh svc n => [.refresh svc n]
+  | .adv ms => [.adv ms]
+  | .tick => [.tick]
+  | .lost svc => [.lost svc]
+  | .wlost svc => [.wlost svc]
+
 /-! ### the pre-hypothesis behaviour, kept executable: a second create-success for
 a live scene id leaks the first line (used by a witness theorem) -/
 def dupCreateWorld : World := (World.empty.onCreateSucc 7 100 1).onCreateSucc 7 100 1
